@@ -337,11 +337,12 @@ def obligations(tier, seed):
         obs.append(dict(name='est_twice_n%d' % n, func='h_est_twice', param=dict(n=n), timeout=to))
         obs.append(dict(name='est_incomplete_cp_n%d' % n, func='h_est_incomplete_cp', param=dict(n=n), timeout=to))
         obs.append(dict(name='est_incomplete_n%d' % n, func='h_est_incomplete', param=dict(n=n), timeout=to))
-    temps = [298.15, 500.0] if q else [100.0, 298.15, 300.0, 500.0, 1000.0, 1500.0]
+    temps = [298.15, 500.0] if q else [298.15, 300.0, 500.0, 1000.0]
+    wide = ['GRWAqueous2018', 'GRWSurface2018', 'GuSolventGA2017Aq', 'GuSolventGA2017Vac', 'PtSurface2023']    # data from 100 to 1500 K
     import random
     rnd = random.Random(seed)
     for lib in LIBS:
-        for T in temps:
+        for T in (temps + ([100.0, 1500.0] if (not q and lib in wide) else [])):
             for g in ('get_CpoR', 'get_HoRT', 'get_SoR') if not q else (rnd.choice(['get_CpoR', 'get_HoRT', 'get_SoR']),):
                 obs.append(dict(name='est_real_%s_T%g_%s' % (lib, T, g), func='h_est_real_lib',
                                 param=dict(lib=lib, T=T, getter=g), timeout=to))
